@@ -60,6 +60,7 @@ class Gen:
         kids = []              # children created so far
         fresh = None           # child created last in this atomic step (no suspension since)
         unstarted = set()      # all children created since the last suspension of this task
+        added = []             # (target, op) of the add_done_callback operations so far
         for _ in range(r.randint(1, 5 if depth == 0 else 3)):
             k = r.random()
             if k < 0.18 and self.free and depth < 2:
@@ -74,7 +75,14 @@ class Gen:
                 tgt = me if (fresh is None or r.random() < 0.5) else fresh
                 if tgt == me and kind == "svc" and self.masked:
                     continue              # mask of svc-addcb-keyerror
-                p.append(["addcb", "self" if tgt == me else tgt] + self.cb_args(tgt))
+                again = [op for (tg, op) in added if tg == tgt]
+                if again and r.random() < 0.4:
+                    # the same function once more with the other argument version: the later add replaces it
+                    old = r.choice(again)
+                    p.append(old[:3] + [3 - old[3]] + old[4:])
+                else:
+                    p.append(["addcb", "self" if tgt == me else tgt] + self.cb_args(tgt))
+                added.append((tgt, p[-1]))
             elif k < 0.47:
                 tgt = me if (fresh is None or r.random() < 0.5) else fresh
                 if tgt == me and kind == "svc" and self.masked:
@@ -254,13 +262,14 @@ def model_runs(ctx):
     inv = tl.C14_INV
     one = {"Name": "{n1}", "Ctx": "{c1}", "Kinds": '{"trig"}'}
 
-    def stmt(name, consts, expect_unseen, sym=True):
+    def stmt(name, consts, expect_unseen, sym=True, workers=1):
+        # the witness registers are per TLC worker: only single-worker runs carry them
         def go():
             c = dict(one)
             c.update(consts)
-            cfg = tl.mc_cfg(ctx, name, c, inv, symmetry=sym, witness=True)
-            res = tlc.run("Tasks", cfg, ctx.scratch, workers=1, timeout=3000)
-            return ("stmt", name, res, expect_unseen)
+            cfg = tl.mc_cfg(ctx, name, c, inv, symmetry=sym, witness=workers == 1)
+            res = tlc.run("Tasks", cfg, ctx.scratch, workers=workers, timeout=3000)
+            return ("stmt" if workers == 1 else "big", name, res, expect_unseen)
         return go
     # exit protocol of one task: two callback functions, re-registration, removal, env cancellation at every park
     runs.append(stmt("c14_exit", {"Task": "{t1}", "Fn": "{g1, g2}", "MaxArg": "2", "MaxOps": "3", "MaxEnv": "1",
@@ -269,14 +278,15 @@ def model_runs(ctx):
     runs.append(stmt("c14_unique_cb_cancel", {"Task": "{t1, t2}", "Fn": "{g1}", "MaxOps": "2", "MaxEnv": "1",
                                               "Ops": '{"unique", "sleep", "cancel", "addcb"}'}, {5, 7, 8, 9}))
     # task graphs: create / cancel / wait
-    runs.append(stmt("c14_graph", {"Task": "{t1, t2, t3}", "MaxOps": "2",
-                                   "Ops": ctx.pick('{"create", "cancel", "wait"}', '{"sleep", "raise", "create", "cancel", "wait"}')},
+    runs.append(stmt("c14_graph", {"Task": "{t1, t2, t3}", "MaxOps": "2", "Ops": '{"create", "cancel", "wait"}'},
                      {3, 4, 5, 6, 8, 10}))
     if not ctx.quick:
-        runs.append(stmt("c14_graph_cb", {"Task": "{t1, t2}", "Fn": "{g1}", "MaxOps": "3", "MaxEnv": "1", "Kinds": '{"trig", "svc"}',
-                                          "Ops": '{"sleep", "raise", "create", "cancel", "wait", "addcb"}'}, {3, 5, 8, 10}))
-        runs.append(stmt("c14_two_cbs_two_tasks", {"Task": "{t1, t2}", "Fn": "{g1, g2}", "MaxArg": "2", "MaxOps": "3", "MaxEnv": "1",
-                                                   "Ops": '{"sleep", "raise", "addcb", "rmcb", "cancel"}'}, {3, 7, 8, 10}))
+        runs.append(stmt("c14_graph_sleep_raise", {"Task": "{t1, t2, t3}", "MaxOps": "2",
+                                                   "Ops": '{"sleep", "raise", "create", "cancel", "wait"}'}, None, workers=5))
+        runs.append(stmt("c14_graph_cb", {"Task": "{t1, t2}", "Fn": "{g1}", "MaxOps": "3", "MaxEnv": "1",
+                                          "Ops": '{"sleep", "raise", "create", "cancel", "wait", "addcb"}'}, None, workers=5))
+        runs.append(stmt("c14_two_cbs_two_tasks", {"Task": "{t1, t2}", "Fn": "{g1, g2}", "MaxArg": "2", "MaxOps": "2", "MaxEnv": "1",
+                                                   "Ops": '{"sleep", "raise", "addcb", "rmcb", "cancel"}'}, None, workers=5))
 
         def sim():
             c = dict(one)
@@ -285,7 +295,7 @@ def model_runs(ctx):
                       "Ops": '{"unique", "sleep", "raise", "create", "cancel", "addcb", "rmcb", "wait", "exec"}'})
             cfg = tl.mc_cfg(ctx, "c14_sim", c, inv, symmetry=False)
             res = tlc.run("Tasks", cfg, ctx.scratch, workers=4, timeout=3000,
-                          extra=["-simulate", "num=60000", "-depth", "100", "-seed", str(ctx.seed + 1)])
+                          extra=["-simulate", "num=3000", "-depth", "70", "-seed", str(ctx.seed + 1)])
             return ("sim", "c14_sim_4tasks", res, None)
         runs.append(sim)
     for flag in PROP_FLAGS:
@@ -302,8 +312,8 @@ def main(ctx):
         tl.validate(ctx, "C14", [c for r in cases for c in r], "replay")
         return
     r = random.Random(ctx.seed)
-    per = ctx.pick(6, 60)
-    cap = ctx.pick(5, 40)
+    per = ctx.pick(5, 60)
+    cap = ctx.pick(4, 40)
     njobs = 12
     scns = []
     for j in range(njobs):
